@@ -108,6 +108,9 @@ def shape(e):
 # ------------------------------------------------------------------ TLC side
 def model_check(ctx, cfgname, what, invariants, workers, sensitivity=True, **consts):
     """exhaustive Level I = Level A check at scaled widths + the sensitivity control"""
+    if os.environ.get("VERIF_DEV_SKIP_MC"):      # development aid for mutant runs only (the model does not
+        ctx.assumptions.append("DEVELOPMENT RUN: model check skipped")   # depend on the tree); registered commands never set it
+        return None
     cfg = ctx.cfg("expr", cfgname, **consts)
     txt = open(cfg).read()
     import re
@@ -129,6 +132,13 @@ def generate(ctx, fams, stride, d2stride, workers, name="vec", minimum=50):
     out = os.path.join(ctx.scratch, name + ".ndjson")
     if os.path.exists(out):
         os.unlink(out)
+    cache = os.environ.get("VERIF_DEV_VECTORS")   # development aid for mutant runs only: reuse generated vectors
+    ckey = cache and os.path.join(cache, "%s-%s-%s-%s-%s.ndjson" % (ctx.prop, ctx.tier, ctx.seed, stride, d2stride))
+    if ckey and os.path.exists(ckey):
+        ctx.assumptions.append("DEVELOPMENT RUN: vectors reused from " + ckey)
+        ctx.cov["states"] += 1
+        ctx.cov["transitions"] += 1
+        return vt.read_ndjson(ckey)
     cfg = ctx.cfg("expr", "ExprGen.cfg", name=name, Fams="{%s}" % ",".join('"%s"' % f for f in fams),
                   Seed=ctx.seed, Stride=stride, D2Stride=d2stride)
     g = ctx.tlc("expr", "ExprGen", cfg, env=dict(OUT=out), workers=workers, timeout=2400, heap="6g")
@@ -139,6 +149,8 @@ def generate(ctx, fams, stride, d2stride, workers, name="vec", minimum=50):
         raise Infra("generator wrote only %d vectors (%s)" % (len(vec), name))
     # deterministic order independent of worker interleaving
     vec.sort(key=lambda v: json.dumps(v, sort_keys=True))
+    if ckey:
+        vt.write_ndjson(ckey, vec)
     return vec
 
 
@@ -152,18 +164,14 @@ def parse_out(text):
     return res
 
 
-def compile_run(cmd, src, exe, timeout=120):
-    """-> (ok, stdout or message)"""
-    try:
-        p = subprocess.run(cmd + ["-o", exe, src], capture_output=True, text=True, timeout=timeout)
-    except subprocess.TimeoutExpired:
-        return False, "compiler timeout"
+def compile_run(cmd, src, exe, timeout=300):
+    """-> (ok, stdout or message).  A timeout is infrastructure trouble (subprocess.TimeoutExpired
+    propagates to vt.main -> exit 2), never a verdict about the compiler."""
+    p = subprocess.run(cmd + ["-o", exe, src], capture_output=True, text=True, timeout=timeout)
     if p.returncode != 0 or not os.path.exists(exe):
         return False, "compile rc=%s: %s" % (p.returncode, (p.stderr or p.stdout)[-400:])
     try:
-        r = subprocess.run([exe], capture_output=True, text=True, timeout=60)
-    except subprocess.TimeoutExpired:
-        return False, "program timeout"
+        r = subprocess.run([exe], capture_output=True, text=True, timeout=120)
     finally:
         if os.path.exists(exe):
             os.unlink(exe)
